@@ -1496,16 +1496,80 @@ func siFractionNotIntegral(L string) bool {
 	return !v.IsInt()
 }
 
-// stripSurrogatePairs removes every well-formed escaped surrogate pair (a high
-// half D800-DBFF directly followed by a low half DC00-DFFF, both introduced by
-// a backslash and exactly h hashes) from L. What is left of the surrogate
-// escapes are the unmatched halves: only those are a legitimate S-P
+// hasUnmatchedSurrogate tokenises the escapes of the literal L (h hashes) left
+// to right, the way unquoteChar does: a backslash followed by exactly h hashes
+// introduces an escape that consumes the next character (so in `\\uD83D` the
+// second backslash is escaped and uD83D is plain text), `u` takes four and `U`
+// eight hex digits. It reports whether some escaped surrogate half
+// (D800-DFFF) is NOT part of a well-formed pair (a high half directly followed
+// by an escaped low half). Only such unmatched halves are a legitimate S-P
 // difference; a well-formed pair must be accepted by all three components.
-func stripSurrogatePairs(L string, h int) string {
-	in := `\\` + strings.Repeat("#", h)
-	half := func(lo string) string { return in + `(?:u|U0000)[dD]` + lo + `[0-9a-fA-F]{2}` }
-	re := regexp.MustCompile(half(`[89abAB]`) + half(`[c-fC-F]`))
-	return re.ReplaceAllString(L, "")
+func hasUnmatchedSurrogate(L string, h int) bool {
+	hexVal := func(t string) (int, bool) {
+		v, err := strconv.ParseUint(t, 16, 64)
+		if err != nil || strings.ContainsAny(t, "+-_") {
+			return 0, false
+		}
+		return int(v), true
+	}
+	i := h // skip the opening hashes; quote characters are ordinary tokens here
+	pendingHigh, unmatched := false, false
+	other := func() {
+		if pendingHigh {
+			unmatched = true
+		}
+		pendingHigh = false
+	}
+	for i < len(L) {
+		if L[i] != '\\' {
+			other()
+			i++
+			continue
+		}
+		k := i + 1
+		for n := 0; n < h && k < len(L) && L[k] == '#'; n++ {
+			k++
+		}
+		if k-(i+1) != h || k >= len(L) {
+			other() // a literal backslash
+			i++
+			continue
+		}
+		n := 0
+		switch L[k] {
+		case 'u':
+			n = 4
+		case 'U':
+			n = 8
+		}
+		if n == 0 || k+1+n > len(L) {
+			other() // some other escape: it consumes the escaped character
+			i = k + 1
+			continue
+		}
+		v, ok := hexVal(L[k+1 : k+1+n])
+		if !ok {
+			other()
+			i = k + 1
+			continue
+		}
+		i = k + 1 + n
+		switch {
+		case 0xD800 <= v && v < 0xDC00:
+			other()
+			pendingHigh = true
+		case 0xDC00 <= v && v < 0xE000:
+			if pendingHigh {
+				pendingHigh = false
+			} else {
+				unmatched = true
+			}
+		default:
+			other()
+		}
+	}
+	other()
+	return unmatched
 }
 
 type exclClass struct {
@@ -1527,7 +1591,7 @@ var exclClasses = []exclClass{
 		verdicts: []string{"S-P"},
 		why:      `\uD800-\uDFFF escapes: the scanner only checks x <= unicode.MaxRune (TODO in scanEscape), literal.Unquote pairs surrogates and rejects unmatched halves (value-level rule; spec.md lists "\uD800" as illegal)`,
 		pred: func(L string, num bool, h int) bool {
-			return !num && reSurrogate.MatchString(stripSurrogatePairs(L, h))
+			return !num && hasUnmatchedSurrogate(L, h)
 		},
 	},
 	{
@@ -2323,6 +2387,9 @@ var canonicalLits = []string{
 	`"\udbff\udc00"`,
 	`'\uDBFF\uDFFF'`,
 	`#"\#ud83d\#ude00"#`,
+	"###\"\\###\\###uD83D\\###uDC00\"###", // escaped backslash, text uD83D, then a LONE low half: surrogate-escape (excluded class)
+	"'日\\\\uD83D\\uDE00'",
+	"\"日\\\\uD83D\\uDE00\"",
 	"\"\"\"\n\u00a0\"\"\"", // unquote-unicode-space-closing-indent (excluded class)
 }
 
